@@ -184,12 +184,41 @@ theorem c10_exit_status {N : Type} [NumOps N] {lead₁ tr₁ lead₂ tr₂ : Byt
       = Pipeline.exitOk (Pipeline.runSource caps cfg fuel (lead₂ ++ render tr₂ l₂) : Pipeline.Result N) :=
   exitOk_of_obs (c10_pipeline l₁ l₂ h₁ t₁ v₁ h₂ t₂ v₂ same caps cfg fuel)
 
-/-- **Redundant parentheses, end to end** (the counterpart of `C10Parse.redundant_parentheses` /
-`C01Parse.program_round_trip` for whole programs): let `b` be a canonical program and `p`, `q` two
-choices of redundant parentheses (any number of pairs around any sub-expressions).  Two texts — in
-any layout — that lex without a diagnostic to the tokens of `b` printed with `p` resp. `q` are both
-accepted by the parser, parse to `b` up to spans, and have the same observation of the shipped
-pipeline: same acceptance, same warnings, same printed values, same ending. -/
+/-- **Redundant parentheses, end to end, up to the `escaped` flag** (the counterpart of
+`C10Parse.redundant_parentheses` / `C01Parse.program_round_trip` for whole programs): let `b` be a
+canonical program and `p`, `q` two choices of redundant parentheses (any number of pairs around any
+sub-expressions).  Two texts — in any layout — that lex without a diagnostic to the tokens of `b` printed
+with `p` resp. `q`, up to the `escaped` flag of the string tokens without `{` (`Parse.flagErase`: the
+printer prints a static string as the escaped token, a literal without an escape sequence lexes to the
+unescaped one, and the parser does not tell them apart — `C10Parse.parse_ignores_str_flag`), are both
+accepted by the parser, parse to `b` up to spans, and have the same observation of the shipped pipeline:
+same acceptance, same warnings, same printed values, same ending. -/
+theorem c10_redundant_parentheses_run_anyflag {N : Type} [NumOps N] (p q : Expr → Nat) (b : Block)
+    (hp : CanonBlock p b) (hq : CanonBlock q b) (s₁ s₂ : Bytes)
+    (h₁ : (lex s₁).2 = []) (h₂ : (lex s₂).2 = [])
+    (t₁ : (lex s₁).1.map (fun t => flagErase t.tok) = (programToks p b).map (fun t => flagErase t.tok))
+    (t₂ : (lex s₂).1.map (fun t => flagErase t.tok) = (programToks q b).map (fun t => flagErase t.tok))
+    (caps : Limits.Caps) (cfg : Eval.RunCfg) (fuel : Nat) :
+    (parseProgram (lex s₁).1).2 = [] ∧ (parseProgram (lex s₂).1).2 = [] ∧
+    eraseSpans (parseProgram (lex s₁).1).1 = eraseSpans b ∧
+    eraseSpans (parseProgram (lex s₂).1).1 = eraseSpans b ∧
+    (obs (Pipeline.runSource caps cfg fuel s₁) : Pipeline.Result N)
+      = obs (Pipeline.runSource caps cfg fuel s₂) := by
+  have key : ∀ (r : Expr → Nat) (s : Bytes), CanonBlock r b →
+      (lex s).1.map (fun t => flagErase t.tok) = (programToks r b).map (fun t => flagErase t.tok) →
+      (parseProgram (lex s).1).2 = [] ∧ eraseSpans (parseProgram (lex s).1).1 = eraseSpans b := by
+    intro r s hr ht
+    obtain ⟨hast, _, hdiag⟩ := layout_insensitive_anyflag (lex s).1 (programToks r b) ht
+    rw [C01Parse.program_round_trip r b hr] at hast hdiag
+    exact ⟨by simpa using hdiag, hast⟩
+  obtain ⟨d1, a1⟩ := key p s₁ hp t₁
+  obtain ⟨d2, a2⟩ := key q s₂ hq t₂
+  refine ⟨d1, d2, a1, a2, ?_⟩
+  rw [runSource_eq, runSource_eq, h₁, h₂, d1, d2]
+  simp only [List.append_nil, List.isEmpty_nil, Bool.not_true, Bool.false_eq_true, if_false]
+  exact runParsed_congr caps cfg fuel (a1.trans a2.symm)
+
+/-- **Redundant parentheses, end to end**: the same for two texts that lex to exactly the printed tokens. -/
 theorem c10_redundant_parentheses_run {N : Type} [NumOps N] (p q : Expr → Nat) (b : Block)
     (hp : CanonBlock p b) (hq : CanonBlock q b) (s₁ s₂ : Bytes)
     (h₁ : (lex s₁).2 = []) (h₂ : (lex s₂).2 = [])
@@ -200,22 +229,38 @@ theorem c10_redundant_parentheses_run {N : Type} [NumOps N] (p q : Expr → Nat)
     eraseSpans (parseProgram (lex s₁).1).1 = eraseSpans b ∧
     eraseSpans (parseProgram (lex s₂).1).1 = eraseSpans b ∧
     (obs (Pipeline.runSource caps cfg fuel s₁) : Pipeline.Result N)
-      = obs (Pipeline.runSource caps cfg fuel s₂) := by
-  have key : ∀ (r : Expr → Nat) (s : Bytes), CanonBlock r b →
-      (lex s).1.map (·.tok) = (programToks r b).map (·.tok) →
-      (parseProgram (lex s).1).2 = [] ∧ eraseSpans (parseProgram (lex s).1).1 = eraseSpans b := by
-    intro r s hr ht
-    obtain ⟨hast, _, hdiag⟩ := layout_insensitive (lex s).1 (programToks r b) ht
-    rw [C01Parse.program_round_trip r b hr] at hast hdiag
-    exact ⟨by simpa using hdiag, hast⟩
-  obtain ⟨d1, a1⟩ := key p s₁ hp t₁
-  obtain ⟨d2, a2⟩ := key q s₂ hq t₂
-  refine ⟨d1, d2, a1, a2, ?_⟩
-  rw [runSource_eq, runSource_eq, h₁, h₂, d1, d2]
-  simp only [List.append_nil, List.isEmpty_nil, Bool.not_true, Bool.false_eq_true, if_false]
-  exact runParsed_congr caps cfg fuel (a1.trans a2.symm)
+      = obs (Pipeline.runSource caps cfg fuel s₂) :=
+  c10_redundant_parentheses_run_anyflag p q b hp hq s₁ s₂ h₁ h₂ (toks_anyflag t₁) (toks_anyflag t₂) caps cfg fuel
 
-/-- The same for texts given as valid layouts of the two printed token sequences. -/
+/-- What a layout lexes to, up to the flag: the tokens of the layout with the parser's end marker. -/
+theorem layout_toks_anyflag {toks : List SpTok} {ltoks : List Tok} (p : Expr → Nat) (b : Block)
+    (a : toks.map (·.tok) = ltoks ++ [.eof]) (k : ltoks.map flagErase = (printBlock p b).map flagErase) :
+    toks.map (fun t => flagErase t.tok) = (programToks p b).map (fun t => flagErase t.tok) := by
+  have e : (programToks p b).map (·.tok) = printBlock p b ++ [.eof] := by
+    simp [programToks, mkTok, List.map_map, Function.comp_def]
+  have h1 : toks.map (fun t => flagErase t.tok) = (toks.map (·.tok)).map flagErase := by
+    simp [List.map_map, Function.comp_def]
+  have h2 : (programToks p b).map (fun t => flagErase t.tok) = ((programToks p b).map (·.tok)).map flagErase := by
+    simp [List.map_map, Function.comp_def]
+  rw [h1, h2, a, e, List.map_append, List.map_append, k]
+
+/-- The same for texts given as valid layouts of the two printed token sequences, up to the `escaped`
+flag of the string tokens without `{`: a static string may be spelled with or without escape sequences. -/
+theorem c10_redundant_parentheses_layouts_anyflag {N : Type} [NumOps N] (p q : Expr → Nat) (b : Block)
+    (hp : CanonBlock p b) (hq : CanonBlock q b) {lead₁ tr₁ lead₂ tr₂ : Bytes} (l₁ l₂ : Layout)
+    (h₁ : Sep lead₁) (t₁ : Trail tr₁) (v₁ : Valid tr₁ l₁)
+    (h₂ : Sep lead₂) (t₂ : Trail tr₂) (v₂ : Valid tr₂ l₂)
+    (k₁ : l₁.toks.map flagErase = (printBlock p b).map flagErase)
+    (k₂ : l₂.toks.map flagErase = (printBlock q b).map flagErase)
+    (caps : Limits.Caps) (cfg : Eval.RunCfg) (fuel : Nat) :
+    (obs (Pipeline.runSource caps cfg fuel (lead₁ ++ render tr₁ l₁)) : Pipeline.Result N)
+      = obs (Pipeline.runSource caps cfg fuel (lead₂ ++ render tr₂ l₂)) := by
+  obtain ⟨a1, a2⟩ := c10_lex_roundtrip h₁ t₁ l₁ v₁
+  obtain ⟨b1, b2⟩ := c10_lex_roundtrip h₂ t₂ l₂ v₂
+  exact (c10_redundant_parentheses_run_anyflag p q b hp hq _ _ a2 b2 (layout_toks_anyflag p b a1 k₁)
+    (layout_toks_anyflag q b b1 k₂) caps cfg fuel).2.2.2.2
+
+/-- The same for texts given as valid layouts of exactly the two printed token sequences. -/
 theorem c10_redundant_parentheses_layouts {N : Type} [NumOps N] (p q : Expr → Nat) (b : Block)
     (hp : CanonBlock p b) (hq : CanonBlock q b) {lead₁ tr₁ lead₂ tr₂ : Bytes} (l₁ l₂ : Layout)
     (h₁ : Sep lead₁) (t₁ : Trail tr₁) (v₁ : Valid tr₁ l₁)
@@ -223,14 +268,9 @@ theorem c10_redundant_parentheses_layouts {N : Type} [NumOps N] (p q : Expr → 
     (k₁ : l₁.toks = printBlock p b) (k₂ : l₂.toks = printBlock q b)
     (caps : Limits.Caps) (cfg : Eval.RunCfg) (fuel : Nat) :
     (obs (Pipeline.runSource caps cfg fuel (lead₁ ++ render tr₁ l₁)) : Pipeline.Result N)
-      = obs (Pipeline.runSource caps cfg fuel (lead₂ ++ render tr₂ l₂)) := by
-  obtain ⟨a1, a2⟩ := c10_lex_roundtrip h₁ t₁ l₁ v₁
-  obtain ⟨b1, b2⟩ := c10_lex_roundtrip h₂ t₂ l₂ v₂
-  have e : ∀ r : Expr → Nat, (programToks r b).map (·.tok) = printBlock r b ++ [.eof] := by
-    intro r
-    simp [programToks, mkTok, List.map_map, Function.comp_def]
-  exact (c10_redundant_parentheses_run p q b hp hq _ _ a2 b2 (by rw [a1, k₁, e]) (by rw [b1, k₂, e])
-    caps cfg fuel).2.2.2.2
+      = obs (Pipeline.runSource caps cfg fuel (lead₂ ++ render tr₂ l₂)) :=
+  c10_redundant_parentheses_layouts_anyflag p q b hp hq l₁ l₂ h₁ t₁ v₁ h₂ t₂ v₂ (by rw [k₁]) (by rw [k₂])
+    caps cfg fuel
 
 
 /-! ## Non-vacuity (toy `Int` numbers of `Lemmas/EvalToy.lean`, limits nothing trips on) -/
